@@ -203,3 +203,242 @@ pub fn client_case(data: &[u8]) -> Result<(), String> {
         crate::report::Guard::HarnessPanic(m) => Err(format!("HARNESS-{}", m)),
     }
 }
+
+// ---------------------------------------------------------------------------------------------------------------
+// fz_history: a whole client history decoded from fuzzer bytes (configuration, then one operation per opcode byte)
+
+const FZ_CREDS: [(&str, &str); 6] = [
+    ("user", "secret-pass"),
+    ("x\u{a0}y ", "p\u{e4}ss word"),
+    ("u", "0123456789012345678901234567890123456789012345678901234567890123"),
+    ("user", "0123456789012345678901234567890123456789012345678901234567890123456789-longer-than-the-hmac-block"),
+    ("\u{212b}ngstr\u{f6}m", "\u{3000}wide"),
+    ("a-user-name-that-is-rather-long@example.org", "p"),
+];
+
+fn fz_reply(u: &mut Unstructured) -> AResult<Reply> {
+    let t: u8 = u.arbitrary()?;
+    let target = match t % 10 {
+        0..=6 => Target::Outstanding(t >> 4),
+        7 | 8 => Target::Finished(t >> 4),
+        _ => Target::Unknown([t; 12]),
+    };
+    let b: u8 = u.arbitrary()?;
+    let body = match b % 16 {
+        0..=5 => Body::Success,
+        6 => Body::Error(u.arbitrary::<u16>()? % 700),
+        7 => Body::Error([300u16, 400, 401, 420, 438, 500, 699, 0][(b >> 4) as usize % 8]),
+        8..=11 => {
+            let x: u16 = u.arbitrary()?;
+            Body::Lt401 {
+                algs: (x % 8) as u8,
+                anon: x & 8 != 0,
+                cookie: x & 16 != 0,
+                realm: (x >> 5 & 3) as u8,
+                nonce: ((x >> 7) % 9) as u8,
+                drop_realm: x >> 12 == 0xF,
+                drop_nonce: x >> 12 == 0xE,
+            }
+        }
+        12 | 13 => Body::Lt438 { nonce: (b >> 4) % 9, drop_nonce: b >> 4 == 0xF },
+        14 => Body::Indication,
+        _ => Body::Request,
+    };
+    let a: u8 = u.arbitrary()?;
+    let auth = match a % 18 {
+        0..=5 => Auth::ValidExpected,
+        6 | 7 => Auth::ValidMi,
+        8 | 9 => Auth::ValidSha,
+        10..=12 => Auth::None,
+        13 => Auth::Both,
+        14 => Auth::CorruptMi,
+        15 => Auth::CorruptSha,
+        16 => Auth::WrongKeyMi,
+        _ => Auth::WrongKeySha,
+    };
+    let f: u8 = u.arbitrary()?;
+    let fp = match f % 12 {
+        0..=5 => FpMode::Valid,
+        6..=8 => FpMode::Absent,
+        9 => FpMode::Corrupt,
+        10 => FpMode::Misplaced,
+        _ => FpMode::CorruptThenValid,
+    };
+    Ok(Reply {
+        target,
+        body,
+        extra: (a >> 5) % 4,
+        auth,
+        fp,
+        dup: f >> 4 == 0xF,
+        twist: if f >> 4 >= 12 { u.arbitrary::<u8>()? % 64 } else { 0 },
+    })
+}
+
+fn fz_app_attrs(u: &mut Unstructured, sel: u8) -> AResult<Vec<RAttr>> {
+    let n = match sel % 8 {
+        0..=3 => 0,
+        4 | 5 => 1,
+        6 => 2,
+        _ => 1 + u.arbitrary::<u8>()? as usize % 6,
+    };
+    let mut v = Vec::new();
+    for _ in 0..n {
+        let k: u8 = u.arbitrary()?;
+        let key = KeySpec::ShortTerm("app-key".into());
+        v.push(match k % 20 {
+            0 => RAttr::UserName("app-user".into()),
+            1 => RAttr::Realm("app-realm".into()),
+            2 => RAttr::Nonce("app-nonce".into()),
+            3 => RAttr::UserHash(UserHashSpec::Names { user: "a".into(), realm: "b".into() }),
+            4 => RAttr::PasswordAlgorithm(RAlg { id: 1, params: vec![] }),
+            5 => RAttr::PasswordAlgorithms(vec![RAlg { id: 2, params: vec![] }]),
+            6 => RAttr::Mi(MacSpec::Keyed { key, fault: Fault::Correct }),
+            7 => RAttr::MiSha256(MacSpec::Keyed { key, fault: Fault::Correct }),
+            8 => RAttr::Fp(FpSpec::Computed(Fault::Correct)),
+            9 => RAttr::Software("first".into()),
+            10 => RAttr::Software("second".into()),
+            11 => RAttr::Priority(1),
+            12 => RAttr::Priority(2),
+            _ => {
+                let a = attr_from(u)?;
+                if crate::codec::var_len(&a).map(|l| l < 200).unwrap_or(true) && crate::conv::to_lib(&a).is_ok() {
+                    a
+                } else {
+                    RAttr::UseCandidate
+                }
+            }
+        });
+    }
+    Ok(v)
+}
+
+fn fz_mutation(u: &mut Unstructured) -> AResult<crate::mutate::Mutation> {
+    use crate::mutate::Mutation as M;
+    let k: u8 = u.arbitrary()?;
+    Ok(match k % 15 {
+        0 => M::FlipBit(u.arbitrary()?),
+        1 => M::SetByte(u.arbitrary()?, u.arbitrary()?),
+        2 => M::Truncate(u.arbitrary()?, (k >> 4) as i8 % 3 - 1),
+        3 => M::TruncateFix(u.arbitrary()?, (k >> 4) as i8 % 3 - 1),
+        4 => M::HeaderLen((k >> 4) % 7),
+        5 => M::AttrLen(u.arbitrary()?, (k >> 4) % 7),
+        6 => M::NestedLen(u.arbitrary()?, (k >> 4) % 7),
+        7 => M::Dup(u.arbitrary()?),
+        8 => M::Swap(u.arbitrary()?, u.arbitrary()?),
+        9 => M::Remove(u.arbitrary()?),
+        10 => M::Inject(u.arbitrary()?, u.arbitrary::<u8>()? as u16, u.arbitrary()?),
+        11 => M::Overwrite(u.arbitrary()?, u.arbitrary::<u8>()? as u16, u.arbitrary()?),
+        12 => M::Retype(u.arbitrary()?, u.arbitrary()?),
+        13 => M::AppendJunk(bytes(u, 23)?),
+        _ => M::InsertAttr(u.arbitrary()?, u.arbitrary()?, bytes(u, 39)?),
+    })
+}
+
+const FZ_DT: [u64; 16] = [
+    1_000_000,
+    3_000_000,
+    20_000_000,
+    100_000_000,
+    250_000_000,
+    500_000_000,
+    1_000_000_000,
+    5_000_000_000,
+    39_500_000_000,
+    40_000_000_000,
+    599_999_999_999,
+    600_000_000_000,
+    600_000_000_001,
+    700_000_000_000,
+    1,
+    999_999,
+];
+
+pub fn history_from(u: &mut Unstructured) -> AResult<History> {
+    let b0: u8 = u.arbitrary()?;
+    let b1: u8 = u.arbitrary()?;
+    let b2: u8 = u.arbitrary()?;
+    let mech = match b0 % 6 {
+        0 => Mech::None,
+        1 => Mech::ShortTerm(None),
+        2 => Mech::ShortTerm(Some(false)),
+        3 => Mech::ShortTerm(Some(true)),
+        _ => Mech::LongTerm,
+    };
+    let reliable = if b0 & 0x80 != 0 { Some([39_500u64, 1, 5_000, 60_000][(b1 & 3) as usize]) } else { None };
+    let rto_us = match b1 >> 2 & 3 {
+        0 | 1 => 500_000,
+        2 => 1_000 + u.arbitrary::<u16>()? as u64 * 45,
+        _ => 1_000,
+    };
+    let gran_us = match b1 >> 4 & 3 {
+        0 | 1 => 1_000,
+        2 => 1,
+        _ => 1 + u.arbitrary::<u16>()? as u64,
+    };
+    let (rm, rc) = match b1 >> 6 {
+        0 | 1 => (16u32, 7u32),
+        2 => (1 + (b2 & 0x1F) as u32, 1 + (b2 >> 5) as u32),
+        _ => (1 + (b2 & 3) as u32, 1 + (b2 >> 2 & 3) as u32),
+    };
+    let max_tx = match b2 % 7 {
+        0..=2 => 10,
+        k => (k - 3) as usize,
+    };
+    let (user, password) = FZ_CREDS[(b2 >> 3) as usize % FZ_CREDS.len()];
+    let cfg = ClientCfg {
+        reliable,
+        rto_us,
+        gran_us,
+        rm,
+        rc,
+        mech,
+        fingerprint: b0 & 0x40 != 0,
+        max_tx,
+        user: user.into(),
+        password: password.into(),
+    };
+    let mut ops = Vec::new();
+    while !u.is_empty() && ops.len() < 64 {
+        let o: u8 = u.arbitrary()?;
+        let hi = o >> 4;
+        ops.push(match o % 16 {
+            0..=2 => Op::Send {
+                method: [1u16, 1, 1, 3, 4, 0xFFF, 0, 0x80][(hi % 8) as usize],
+                attrs: fz_app_attrs(u, hi)?,
+                small_buf: hi == 0xF,
+            },
+            3 => Op::Indication { method: if hi & 1 == 0 { 1 } else { 6 }, attrs: fz_app_attrs(u, hi)? },
+            4 => Op::Advance(FZ_DT[hi as usize]),
+            5 => Op::AdvanceHalfRtos(1 + hi * 4 + u.arbitrary::<u8>()? % 4),
+            6 => Op::Timer(TimerKind::Exact),
+            7 => Op::Timer(if hi < 8 { TimerKind::Late(FZ_DT[hi as usize]) } else { TimerKind::Early(FZ_DT[(hi - 8) as usize * 2 + 1]) }),
+            8 => Op::Timer(if hi == 0 { TimerKind::Now } else { TimerKind::LateHalfRtos(hi * 10 + u.arbitrary::<u8>()? % 10) }),
+            9..=12 => Op::Deliver(fz_reply(u)?),
+            13 => Op::DeliverRaw(bytes(u, 63)?),
+            14 => {
+                let reply = fz_reply(u)?;
+                let n = 1 + hi as usize % 3;
+                let mut muts = Vec::new();
+                for _ in 0..n {
+                    muts.push(fz_mutation(u)?);
+                }
+                Op::DeliverMutated { reply, muts, fix_fp: hi & 8 != 0 }
+            }
+            _ => Op::Advance(u.arbitrary::<u32>()? as u64 * 1_000),
+        });
+    }
+    let lates = vec![0, FZ_DT[(b0 >> 3 & 7) as usize], 0];
+    Ok(History { cfg, ops, lates })
+}
+
+/// Run one decoded history with the invariants of `focus` (the same judge as the proptest checks).
+pub fn history_case(data: &[u8], focus: &[&str], ctx: &crate::report::Ctx, drain: bool) -> Result<(), String> {
+    let mut u = Unstructured::new(data);
+    let h = match history_from(&mut u) {
+        Ok(h) => h,
+        Err(_) => return Ok(()),
+    };
+    let mut st = crate::report::Stats::default();
+    run_history(&h, focus, ctx, &mut st, drain).map(|_| ())
+}
